@@ -226,8 +226,13 @@ def run_case(asm, acc, case):
         items = P.rename_labels(items, dict(zip(names, pool)))
         acc['ctr']['programs_with_labels_named_like_literal_tails'] += 1
     canon = [r_canon(it) for it in items]
+    # a fifth of the programs is built by a caller whose label table holds external symbols named like registers (a firmware whose earlier
+    # stage has labels `t0:` / `sp:` / `x9:`): in a register position a register name is a register, however it is spelled
+    ext = (lambda: {'labels': {'t0': 4, 'a0': 8, 'sp': 0x20005000, 'gp': 0x20000800, 's1': 12, 'x9': 16, 'ra': 20, 'zero': 24, 'fp': 28, 'x15': 32, 't6': 36}}) if case['idx'] % 5 == 2 else (lambda: None)
+    if case['idx'] % 5 == 2:
+        acc['ctr']['programs_built_with_register_named_external_symbols'] += 1
     for compress in (False, True):
-        a = monitors.observe(asm, '\n'.join(canon) + '\n', compress, tap=False)
+        a = monitors.observe(asm, '\n'.join(canon) + '\n', compress, tap=False, preseed=ext())
         if not a.ok:
             acc['ctr']['canonical_refused'] += 1
             acc['n'] += 1
@@ -235,7 +240,7 @@ def run_case(asm, acc, case):
             for k in range(min(3, case['rewrites'])):
                 r2 = random.Random('c13-rw-%d-%d-%d' % (case['seed'], case['idx'], k))
                 lines = respell(r2, items)
-                b = monitors.observe(asm, '\n'.join(lines) + '\n', compress, tap=False)
+                b = monitors.observe(asm, '\n'.join(lines) + '\n', compress, tap=False, preseed=ext())
                 acc['n'] += 1
                 if b.ok:
                     n = a.exc.get('number')
@@ -249,7 +254,7 @@ def run_case(asm, acc, case):
             r2 = random.Random('c13-rw-%d-%d-%d' % (case['seed'], case['idx'], k))
             lines = respell(r2, items)
             acc['n'] += 1
-            b = monitors.observe(asm, '\n'.join(lines) + '\n', compress, tap=False)
+            b = monitors.observe(asm, '\n'.join(lines) + '\n', compress, tap=False, preseed=ext())
             rcase = dict(case, compress=compress, rewrite=k)
             ndiff = sum(1 for l in lines if l not in canon)
             if ndiff >= 3:
